@@ -153,7 +153,7 @@ pub struct DiskStats {
     pub eof_reads: u64,
 }
 
-pub const OP_BUDGET: u64 = 20_000_000;
+pub const OP_BUDGET: u64 = 100_000_000;
 
 struct Inner {
     image: Vec<u8>,
@@ -172,6 +172,8 @@ struct Inner {
     wr_script_ix: usize,
     closed: bool,
     budget_exceeded: bool,
+    epoch_seen: u64,
+    ops_in_call: u64,
 }
 
 /// Cloneable handle to one simulated stream.
@@ -203,6 +205,8 @@ impl SimDisk {
             wr_script_ix: 0,
             closed: false,
             budget_exceeded: false,
+            epoch_seen: 0,
+            ops_in_call: 0,
         })))
     }
     pub fn plain(image: Vec<u8>) -> Self {
@@ -322,7 +326,13 @@ impl Inner {
     fn begin(&mut self, kind: OpKind) -> Result<(), io::Error> {
         let idx = self.stats.ops;
         self.stats.ops += 1;
-        if idx >= OP_BUDGET {
+        let ep = exec::call_epoch();
+        if ep != self.epoch_seen {
+            self.epoch_seen = ep;
+            self.ops_in_call = 0;
+        }
+        self.ops_in_call += 1;
+        if self.ops_in_call > OP_BUDGET {
             self.budget_exceeded = true;
             return Err(io::Error::new(io::ErrorKind::Other, "simdisk: operation budget exceeded"));
         }
